@@ -10,7 +10,7 @@ use std::panic::{catch_unwind, AssertUnwindSafe};
 pub struct C15;
 
 pub fn passwords(rng: &mut Rng) -> Vec<Vec<u8>> {
-    vec![vec![], b"alice".to_vec(), "pässwörd–\u{1F511}".as_bytes().to_vec(), rng.bytes(64), rng.bytes(65), rng.bytes(200), b"a\0".to_vec(), b"a".to_vec(), vec![0x80]]
+    vec![vec![], b"alice".to_vec(), "pässwörd–\u{1F511}".as_bytes().to_vec(), rng.bytes(64), rng.bytes(65), rng.bytes(200), b"a\0".to_vec(), b"a".to_vec(), vec![0x80], b"trailing space ".to_vec(), b"line\n".to_vec(), b" \t".to_vec(), "correct horse battery staple ".repeat(3).into_bytes()]
 }
 
 /// HMAC's view of a key (RFC 2104): longer than a block => hashed; then zero-padded to the block
@@ -46,7 +46,7 @@ pub fn rust_unlock(s: &str, pw: &[u8]) -> String {
 impl Prop for C15 {
     fn id(&self) -> &'static str { "C15" }
     fn rule(&self) -> String {
-        "lock: seeded (private key, password in {empty, ASCII, UTF-8, 64/65/200 bytes, NUL, 0x80}, salt): Rust string == model string, unlocks on both sides to the key, and is base64 of \
+        "lock: seeded (private key, password in {empty, ASCII, UTF-8, 64/65/200 bytes, NUL, 0x80, trailing space / newline / tab, 87-byte passphrase}, salt): Rust string == model string, unlocks on both sides to the key, and is base64 of \
          65676b30 || salt || ChaCha20-Poly1305(scrypt(pw, salt, 32768, 8, 1), nonce 0, ad = version) recomputed from the exported primitives; wrong passwords (one-bit neighbours, prefix, empty) rejected; \
          every single-bit flip of the 84-byte blob (all 672 in thorough, all of version/ciphertext/tag plus a salt sample in quick) must fail on both sides. non-trivial = distinct (case kind, password kind or flipped bit)".into()
     }
